@@ -7,6 +7,8 @@
 //	scope oracle <n> [<shard>]  n random histories executed with root probes; the property's clauses
 //	                            are evaluated on the implementation alone (see oracle.go)
 //	scope judge                 the same evaluation for one history given on stdin
+//	scope cgen|coracle|cjudge   the concurrent-closers family (`cc …` case lines, see closers.go); `drive`
+//	                            executes `cc` lines too
 package main
 
 import (
@@ -55,7 +57,10 @@ func drive(w *bufio.Writer) {
 			fmt.Fprintln(w, "skipped")
 			continue
 		}
-		if line == "reset" {
+		if strings.HasPrefix(line, "cc ") {
+			// a concurrent-closers case (closers.go): self-contained, does not touch the history state
+			fmt.Fprintln(w, execCC(line))
+		} else if line == "reset" {
 			h.cleanup()
 			nh := newH()
 			nh.noWatcher, nh.timeouts = h.noWatcher, h.timeouts
@@ -211,6 +216,22 @@ func main() {
 		oracle(w, n, shardRand(os.Args[3:], 0x5eed), shardOf(os.Args[3:]))
 	case "judge":
 		judge(w)
+	case "cgen": // cgen <n> [<shard>]: concurrent-closers cases (closers.go)
+		n, _ := strconv.Atoi(os.Args[2])
+		for _, c := range ccGen(n, shardRand(os.Args[3:], 0xcc01), shardOf(os.Args[3:]), ccRounds()) {
+			fmt.Fprintln(w, c.String())
+		}
+	case "coracle": // coracle <n> [<shard>]: the clauses of the concurrent-closers family on the implementation alone
+		n, _ := strconv.Atoi(os.Args[2])
+		ccOracle(w, ccGen(n, shardRand(os.Args[3:], 0xcc02), shardOf(os.Args[3:]), ccRounds()), 1)
+	case "cjudge": // cjudge [<mult>]: the same for the case lines on stdin, mult times their rounds
+		mult := 1
+		if len(os.Args) > 2 {
+			if v, err := strconv.Atoi(os.Args[2]); err == nil && v > 0 {
+				mult = v
+			}
+		}
+		ccJudge(w, mult)
 	default:
 		fmt.Fprintln(os.Stderr, "unknown mode")
 		os.Exit(2)
